@@ -22,19 +22,24 @@ DRIVERS = ['C13']
 META = dict(
     level='proof',
     technique='Lean 4 theorems about an executable model of the threshold-signature arithmetic '
-              '(Horner sharing, share aggregation, Lagrange coefficients with Go ModInverse semantics, '
-              'recovery loop, random k-subset selection, float GetGroupK); correspondence of model and '
-              'go-rangers code on generated op lines; constants and call sites regenerated from source',
-    level_text='machine-checked proof for all group sizes, polynomials, ids distinct mod r, subsets and orders; '
-               'bn256 group laws and pairing bilinearity are hypotheses (sampled every run)',
-    level_note='recovery is proved for every Module (ZMod r) G; that bn256.G1/G2 are such modules and Pair is bilinear is assumed',
-    trusted_base=['Lean 4 kernel', 'Mathlib (Lagrange, ZMod, Polynomial)', 'gen/cmd/c13facts', 'harness/cmd/c13',
+              '(Horner sharing, share aggregation, Lagrange coefficients with Go ModInverse semantics, recovery loop, '
+              'random k-subset selection with map orders and draws as parameters, GroupSignGenerator state machine, '
+              'bit-exact float GetGroupK) incl. a Pratt certificate for the group order; correspondence of model and '
+              'go-rangers code on generated op lines; constants, call sites and twin code regenerated from source',
+    level_text='machine-checked proof for all group sizes < 2^46, all polynomials, all ids pairwise distinct mod r, all subsets, '
+               'orders, map iteration orders and random draws; bn256 group laws and pairing bilinearity are hypotheses (sampled)',
+    level_note='partial: ids congruent mod r break recovery (known finding, counterexample proved and replayed); '
+               'that bn256.G1/G2 are ZMod r-modules and Pair is bilinear is assumed',
+    trusted_base=['Lean 4 kernel', 'Mathlib (Lagrange, ZMod, Polynomial, LucasPrimality)', 'gen/cmd/c13facts', 'harness/cmd/c13',
                   'bn256 field/curve/pairing implementation', 'math/big', 'Go map iteration and crypto/rand (modelled as parameters)'],
-    assumptions=['bn256.G1 and G2 with Add/ScalarMult are modules over Z_r and Pair is bilinear (sampled, not proved)',
-                 'member ids are pairwise distinct modulo the group order r',
-                 'hash-to-curve is a function of the message only (not modelled)'],
+    assumptions=['bn256.G1 and G2 with Add/ScalarMult are modules over Z_r and Pair is bilinear (sampled every run, not proved)',
+                 'member ids are pairwise distinct modulo the group order r (violated inputs are the recorded known finding)',
+                 'hash-to-curve is a function of the message only (not modelled)',
+                 'dealing and recovery see the same group size'],
     rule='distinct op lines sent to both implementation and model whose model answer is neither bad-op nor unmodelled',
-    explanation='see design/C13.md',
+    explanation='Any list of >= k shares f(x_i)*H of a degree < k polynomial at ids distinct mod r recovers f(0)*H by Lagrange '
+                'interpolation (Mathlib), for the executable delta computation of recoverSignature; the selection logic of '
+                'RecoverGroupSignature and GroupSignGenerator only ever feeds it such lists; see design/C13.md',
 )
 
 NPROC = max(2, min(16, (os.cpu_count() or 4)))
